@@ -831,9 +831,9 @@ theorem nameWF_spec {n : Str} (h : nameWF n = true) :
 theorem sections_read (P name : Str) (as : Attrs) (desc : Option Str)
     (hP : ∀ c ∈ P, lineDelim c = false) (has : attrsWF as = true)
     (hv : (as.all fun kv => kv.2.all fun v => v.all (!lineDelim ·)) = true)
-    (hd : descWF desc = true) (ht : descTrimmed desc = true)
+    (hd : descWF desc = true)
     (hname : getTagName (P ++ extras (formatAttr as) desc) = some (name, P.length)) :
-    readEntry (P ++ extras (formatAttr as) desc) = .ok (name, as, desc) := by
+    readEntry (P ++ extras (formatAttr as) desc) = .ok (name, as, desc.map strip) := by
   have hac := formatAttr_chars as has hv
   have hpa : parseAttr (formatAttr as) = .ok as := parseAttr_formatAttr as has
   have hPo : ∀ (x : Char), (x = '{' ∨ x = '}' ∨ x = '[' ∨ x = ']') → ∀ c ∈ P, c ≠ x := by
@@ -888,7 +888,6 @@ theorem sections_read (P name : Str) (as : Attrs) (desc : Option Str)
   | some d =>
     obtain ⟨hdne, _, hdc⟩ := descWF_spec hd
     have hdemp : d.isEmpty = false := by simpa using hdne
-    have hdt : strip d = d := strip_trimmed (by simpa [descTrimmed] using ht)
     by_cases hne : as = []
     · subst hne
       have ha : formatAttr [] = [] := rfl
@@ -917,7 +916,7 @@ theorem sections_read (P name : Str) (as : Attrs) (desc : Option Str)
         (fun a h => ⟨hPo _ (by simp) a h, hPo _ (by simp) a h⟩) (by simp)
         (fun a h => ⟨(hdc a h).2.2.1, (hdc a h).2.2.2⟩) (by simp) P.length rfl
       simp only [h1, parseAttr, h2]
-      simp [hdemp, hdt]
+      simp [hdemp]
     · have hane := formatAttr_ne_nil as has hne
       have hemp : (formatAttr as).isEmpty = false := by simpa using hane
       have e : P ++ extras (formatAttr as) (some d) =
@@ -950,7 +949,7 @@ theorem sections_read (P name : Str) (as : Attrs) (desc : Option Str)
         (([] : Str).length + 1 + (formatAttr as).length + P.length) (by simp; omega)
       rw [← e2] at h2
       simp only [h1, hpa, h2]
-      simp [hdemp, hdt]
+      simp [hdemp]
 
 theorem tailMatch_end (Q S : Str) (hQ : Q = [] ∨ Q = quote3) (hS : S = [] ∨ S = [' ']) :
     tailMatch (Q ++ S) = some (Q.length + S.length) := by
@@ -1047,10 +1046,10 @@ theorem row_read (pre u Q S short : Str) (as : Attrs) (desc : Option Str)
     (hS : (extras (formatAttr as) desc = [] → S = [] ∨ S = [' ']) ∧ (extras (formatAttr as) desc ≠ [] → S = [' ']))
     (hpre : ∀ c ∈ pre, lineDelim c = false) (hu : ∀ c ∈ u, lineDelim c = false)
     (has : attrsWF as = true) (hv : (as.all fun kv => kv.2.all fun v => v.all (!lineDelim ·)) = true)
-    (hd : descWF desc = true) (ht : descTrimmed desc = true)
+    (hd : descWF desc = true)
     (he : hasSub extendHere (pre ++ (u ++ (Q ++ S ++ extras (formatAttr as) desc))) = false)
     (hz : hasSub zwEntity (pre ++ (u ++ (Q ++ S ++ extras (formatAttr as) desc))) = false) :
-    readEntry (pre ++ (u ++ (Q ++ S ++ extras (formatAttr as) desc))) = .ok (short, as, desc) := by
+    readEntry (pre ++ (u ++ (Q ++ S ++ extras (formatAttr as) desc))) = .ok (short, as, desc.map strip) := by
   have htm : tailMatch (Q ++ S ++ extras (formatAttr as) desc) = some (Q.length + S.length) := by
     by_cases hex : extras (formatAttr as) desc = []
     · rw [hex]; simpa using tailMatch_end Q S hQ (hS.1 hex)
@@ -1075,7 +1074,7 @@ theorem row_read (pre u Q S short : Str) (as : Attrs) (desc : Option Str)
   have e : pre ++ (u ++ (Q ++ S ++ extras (formatAttr as) desc)) =
       (pre ++ u ++ Q ++ S) ++ extras (formatAttr as) desc := by simp
   rw [e] at hname ⊢
-  apply sections_read _ short as desc _ has hv hd ht
+  apply sections_read _ short as desc _ has hv hd
   · rw [hname]; simp; omega
   · intro c hc
     simp only [List.mem_append] at hc
@@ -1164,11 +1163,11 @@ theorem quote3_prefix_stars (n : Nat) (rest : Str) : quote3.isPrefixOf (stars (n
 
 /-! ### wiki entry lines -/
 
-theorem line_roundtrip_core (l : Nat) (short : Str) (as : Attrs) (desc : Option Str)
-    (h : lineWF l short as desc = true) (ht : descTrimmed desc = true) :
+theorem line_roundtrip_full (l : Nat) (short : Str) (as : Attrs) (desc : Option Str)
+    (h : lineWF l short as desc = true) :
     cleanLine (tagLine l short (extras (formatAttr as) desc)) =
         .ok (some (rowBody l short (extras (formatAttr as) desc))) ∧
-      readEntry (rowBody l short (extras (formatAttr as) desc)) = .ok (short, as, desc) ∧
+      readEntry (rowBody l short (extras (formatAttr as) desc)) = .ok (short, as, desc.map strip) ∧
       quote3.isPrefixOf (rowBody l short (extras (formatAttr as) desc)) = (l == 0) ∧
       (0 < l → tagLevel (rowBody l short (extras (formatAttr as) desc)) = some l) := by
   obtain ⟨hn, has, hv, hd, he, hz⟩ := lineWF_spec h
@@ -1192,9 +1191,9 @@ theorem line_roundtrip_core (l : Nat) (short : Str) (as : Attrs) (desc : Option 
           (extras (formatAttr as) desc ≠ [] → S = [' '])) →
         hasSub extendHere (quote3 ++ (short ++ (quote3 ++ S ++ extras (formatAttr as) desc))) = false →
         hasSub zwEntity (quote3 ++ (short ++ (quote3 ++ S ++ extras (formatAttr as) desc))) = false →
-        readEntry (quote3 ++ (short ++ (quote3 ++ S ++ extras (formatAttr as) desc))) = .ok (short, as, desc) := by
+        readEntry (quote3 ++ (short ++ (quote3 ++ S ++ extras (formatAttr as) desc))) = .ok (short, as, desc.map strip) := by
       intro S hS he' hz'
-      apply row_read quote3 short quote3 S short as desc _ f1 f2 f3 f4 hsne (Or.inr rfl) hS _ f5 has hv hd ht he' hz'
+      apply row_read quote3 short quote3 S short as desc _ f1 f2 f3 f4 hsne (Or.inr rfl) hS _ f5 has hv hd he' hz'
       · intro t k hs
         simpa [quote3] using searchName_root short t k hs
       · intro c hc; simp [quote3] at hc; subst hc; decide
@@ -1237,11 +1236,11 @@ theorem line_roundtrip_core (l : Nat) (short : Str) (as : Attrs) (desc : Option 
         hasSub extendHere (stars (n + 1) ++ ((pad ++ short) ++ ([] ++ S ++ extras (formatAttr as) desc))) = false →
         hasSub zwEntity (stars (n + 1) ++ ((pad ++ short) ++ ([] ++ S ++ extras (formatAttr as) desc))) = false →
         readEntry (stars (n + 1) ++ ((pad ++ short) ++ ([] ++ S ++ extras (formatAttr as) desc))) =
-          .ok (short, as, desc) := by
+          .ok (short, as, desc.map strip) := by
       intro pad S hpad hpne hS he' hz'
       obtain ⟨f1, f2, f3, f4, f5⟩ := pad_facts pad short hpad hn
       apply row_read (stars (n + 1)) (pad ++ short) [] S short as desc _ f1 f2 f3 f4 hsne (Or.inl rfl) hS hpre f5
-        has hv hd ht he' hz'
+        has hv hd he' hz'
       intro t k hs
       have := searchName_star n (pad ++ short) t k (by
         obtain ⟨a, r, rfl⟩ := List.exists_cons_of_ne_nil hpne
@@ -1329,6 +1328,22 @@ theorem line_roundtrip_core (l : Nat) (short : Str) (as : Attrs) (desc : Option 
           have := hlvl (short ++ ' ' :: extras (formatAttr as) desc)
           simpa using this
 
+
+theorem map_strip_of_trimmed (desc : Option Str) (ht : descTrimmed desc = true) : desc.map strip = desc := by
+  cases desc with
+  | none => rfl
+  | some d => simp [strip_trimmed (by simpa [descTrimmed] using ht)]
+
+theorem line_roundtrip_core (l : Nat) (short : Str) (as : Attrs) (desc : Option Str)
+    (h : lineWF l short as desc = true) (ht : descTrimmed desc = true) :
+    cleanLine (tagLine l short (extras (formatAttr as) desc)) =
+        .ok (some (rowBody l short (extras (formatAttr as) desc))) ∧
+      readEntry (rowBody l short (extras (formatAttr as) desc)) = .ok (short, as, desc) ∧
+      quote3.isPrefixOf (rowBody l short (extras (formatAttr as) desc)) = (l == 0) ∧
+      (0 < l → tagLevel (rowBody l short (extras (formatAttr as) desc)) = some l) := by
+  have := line_roundtrip_full l short as desc h
+  rw [map_strip_of_trimmed desc ht] at this
+  exact this
 
 /-- `line_roundtrip_partial` in the form used by the tag-section proof (stated here because the section lemmas
 live in this namespace) -/
@@ -1489,6 +1504,76 @@ theorem ofWikiFrom_toWiki (ts : List Entry) (prev : List Str)
     obtain ⟨⟨h1, h2⟩, h3⟩ := hp
     have ih' := ih (splitOn '/' e.name) (fun x hx => hwf x (List.mem_cons_of_mem _ hx)) h3
     have hstep := ofWikiFrom_step (toWiki r) prev e hw ht h1 h2
+    rw [ih'] at hstep
+    have e1 : toWiki (e :: r) = (if level e.name == 0 then [[]] else []) ++
+        tagLine (level e.name) (shortName e.name) (entryExtras e) :: toWiki r := by
+      simp [toWiki, toWikiLeveled]
+    rw [e1]
+    by_cases hz : (level e.name == 0) = true
+    · simp only [hz, ↓reduceIte, List.cons_append, List.nil_append]
+      rw [ofWikiFrom, cleanLine_nil]
+      exact hstep
+    · simp only [hz, Bool.false_eq_true, ↓reduceIte, List.nil_append]
+      exact hstep
+
+theorem ofWikiFrom_step_full (rest : List Str) (prev : List Str) (e : Entry) (hwf : entryWF e = true)
+    (h1 : (splitOn '/' e.name).length - 1 ≤ prev.length)
+    (h2 : (splitOn '/' e.name).dropLast = prev.take ((splitOn '/' e.name).length - 1)) :
+    ofWikiFrom (tagLine (level e.name) (shortName e.name) (entryExtras e) :: rest) prev =
+      match ofWikiFrom rest (splitOn '/' e.name) with
+      | .error x => .error x
+      | .ok es => .ok (stripDesc e :: es) := by
+  have hl := entryWF_spec hwf
+  have hlevel : level e.name = (splitOn '/' e.name).length - 1 := by
+    simp [level, splitOn_length]
+  obtain ⟨hn, _⟩ := lineWF_spec hl
+  obtain ⟨hsne, _, _⟩ := nameWF_spec hn
+  have hsemp : (shortName e.name).isEmpty = false := by simpa using hsne
+  have hrebuild := rebuild_name e.name
+  have hmk : (⟨e.name, e.attrs, e.desc.map strip⟩ : Entry) = stripDesc e := rfl
+  unfold entryExtras
+  obtain ⟨c1, c2, c3, c4⟩ := line_roundtrip_full (level e.name) (shortName e.name) e.attrs e.desc hl
+  rw [ofWikiFrom]
+  simp only [c1, c2, c3, hsemp]
+  cases hlv : level e.name with
+  | zero =>
+    rw [hlv] at c3 c4
+    rw [← hlevel, hlv] at h2
+    simp only [List.take_zero] at h2
+    simp only [beq_self_eq_true, ↓reduceIte, Bool.false_eq_true]
+    rw [h2] at hrebuild
+    simp only [List.isEmpty_nil, ↓reduceIte] at hrebuild ⊢
+    rw [hrebuild, hmk]
+    cases ofWikiFrom rest (splitOn '/' e.name) <;> rfl
+  | succ n =>
+    rw [hlv] at c3 c4
+    have c4' := c4 (by omega)
+    rw [← hlevel, hlv] at h1 h2
+    have hne : ((n + 1) == 0) = false := by simp
+    simp only [hne, Bool.false_eq_true, ↓reduceIte, c4']
+    by_cases hlt : n + 1 < prev.length
+    · simp only [hlt, ↓reduceIte]
+      rw [← h2, hrebuild, hmk]
+      cases ofWikiFrom rest (splitOn '/' e.name) <;> rfl
+    · have heq : prev.length = n + 1 := by omega
+      have hgt : ¬ (n + 1 > prev.length) := by omega
+      simp only [hlt, hgt, ↓reduceIte]
+      have : prev = prev.take (n + 1) := by rw [← heq, List.take_length]
+      rw [this, ← h2, hrebuild, hmk]
+      cases ofWikiFrom rest (splitOn '/' e.name) <;> rfl
+
+
+theorem ofWikiFrom_toWiki_full (ts : List Entry) (prev : List Str)
+    (hwf : ∀ e ∈ ts, entryWF e = true) (hp : Preorder prev ts = true) :
+    ofWikiFrom (toWiki ts) prev = .ok (ts.map stripDesc) := by
+  induction ts generalizing prev with
+  | nil => simp [toWiki, toWikiLeveled, ofWikiFrom]
+  | cons e r ih =>
+    have hw := hwf e List.mem_cons_self
+    simp only [Preorder, Bool.and_eq_true, decide_eq_true_eq, beq_iff_eq] at hp
+    obtain ⟨⟨h1, h2⟩, h3⟩ := hp
+    have ih' := ih (splitOn '/' e.name) (fun x hx => hwf x (List.mem_cons_of_mem _ hx)) h3
+    have hstep := ofWikiFrom_step_full (toWiki r) prev e hw h1 h2
     rw [ih'] at hstep
     have e1 : toWiki (e :: r) = (if level e.name == 0 then [[]] else []) ++
         tagLine (level e.name) (shortName e.name) (entryExtras e) :: toWiki r := by
@@ -2258,6 +2343,478 @@ theorem outputUnits_merged (f : Flags) (hb : f.saveBase = true) (hl : f.saveLib 
     have : List.filter (fun _ : Entry => true) us = us := List.filter_eq_self.mpr (by simp)
     simp [outputUnits, outputSection, shouldSkip, hb, hl, ih, this]
 
+theorem unescape_bs (h : Char) (t : Str) (hh : h ≠ 'n') :
+    unescapeNl ('\\' :: h :: t) = '\\' :: unescapeNl (h :: t) := by
+  simp [unescapeNl, hh]
+
+theorem escape_unescape (s : Str) (h : hasSub ['\\', 'n'] s = false) : unescapeNl (escapeNl s) = s := by
+  induction s with
+  | nil => rfl
+  | cons c cs ih =>
+    simp only [hasSub, Bool.or_eq_false_iff] at h
+    have ih' := ih h.2
+    by_cases hc : c = '\n'
+    · subst hc; simp [escapeNl, unescapeNl, ih']
+    · by_cases hb : c = '\\'
+      · subst hb
+        have he : escapeNl ('\\' :: cs) = '\\' :: escapeNl cs := by simp [escapeNl]
+        rw [he]
+        cases cs with
+        | nil => simp [escapeNl, unescapeNl]
+        | cons d cs' =>
+          have hd : d ≠ 'n' := by
+            intro e; subst e
+            have := h.1
+            simp [List.isPrefixOf_cons_cons] at this
+          by_cases hdn : d = '\n'
+          · subst hdn
+            have : escapeNl ('\n' :: cs') = '\\' :: 'n' :: escapeNl cs' := by simp [escapeNl]
+            rw [this] at ih' ⊢
+            rw [unescape_bs '\\' _ (by decide), ih']
+          · have : escapeNl (d :: cs') = d :: escapeNl cs' := by simp [escapeNl, hdn]
+            rw [this] at ih' ⊢
+            rw [unescape_bs d _ hd, ih']
+      · simp [escapeNl, hc, unescape_cons c _ hb, ih']
+
+theorem stripDesc_of_trimmed (e : Entry) (h : descTrimmed e.desc = true) : stripDesc e = e := by
+  unfold stripDesc
+  rw [map_strip_of_trimmed e.desc h]
+
+/-! ### the three documents of one save -/
+
+/-- `rel` names the entries the way the saved file shows them: level, last name segment, attributes and description
+of each written entry are those of the corresponding `rel` entry.  For a merged save `rel` is the written entries
+themselves; for an unmerged save the library entries with the partner's part of the path removed (rooted tags
+become roots). -/
+def RelOf (out : List (Nat × Entry)) (rel : List Entry) : Prop :=
+  out.map (fun p => (p.1, shortName p.2.name, p.2.attrs, p.2.desc)) =
+    rel.map (fun e => (level e.name, shortName e.name, e.attrs, e.desc))
+
+theorem toWikiLeveled_congr (out : List (Nat × Entry)) (rel : List Entry) (h : RelOf out rel) :
+    toWikiLeveled out = toWiki rel := by
+  unfold RelOf at h
+  induction out generalizing rel with
+  | nil =>
+    cases rel with
+    | nil => rfl
+    | cons e r => simp at h
+  | cons p t ih =>
+    cases rel with
+    | nil => simp at h
+    | cons e r =>
+      obtain ⟨l, x⟩ := p
+      simp only [List.map_cons, List.cons.injEq, Prod.mk.injEq] at h
+      obtain ⟨⟨h1, h2, h3, h4⟩, ht⟩ := h
+      have := ih r ht
+      simp only [toWiki, List.map_cons, toWikiLeveled, entryExtras] at this ⊢
+      rw [this, h1, h2, h3, h4]
+
+theorem toXmlFrom_congr (out : List (Nat × Entry)) (rel : List Entry) (F : List XNode) (h : RelOf out rel) :
+    toXmlFrom out F = toXmlFrom (rel.map fun e => (level e.name, e)) F := by
+  unfold RelOf at h
+  induction out generalizing rel F with
+  | nil =>
+    cases rel with
+    | nil => rfl
+    | cons e r => simp at h
+  | cons p t ih =>
+    cases rel with
+    | nil => simp at h
+    | cons e r =>
+      obtain ⟨l, x⟩ := p
+      simp only [List.map_cons, List.cons.injEq, Prod.mk.injEq] at h
+      obtain ⟨⟨h1, h2, h3, h4⟩, ht⟩ := h
+      simp only [List.map_cons, toXmlFrom, xmlElem, h1, h2, h3, h4]
+      cases insertDepth F (level e.name) (.node (shortName e.name) (xmlDesc e.desc) e.attrs []) with
+      | none => rfl
+      | some F' => exact ih r F' ht
+
+/-! ### tree order of a group -/
+
+theorem lexLe_refl (a : List Nat) : lexLe a a = true := by
+  induction a with
+  | nil => rfl
+  | cons x xs ih => simp [lexLe, ih]
+
+theorem lexLe_total (a b : List Nat) : (lexLe a b || lexLe b a) = true := by
+  induction a generalizing b with
+  | nil => simp [lexLe]
+  | cons x xs ih =>
+    cases b with
+    | nil => simp [lexLe]
+    | cons y ys =>
+      have := ih ys
+      simp only [lexLe, Bool.or_eq_true, Bool.and_eq_true, decide_eq_true_eq, beq_iff_eq] at this ⊢
+      rcases Nat.lt_trichotomy x y with h | h | h
+      · exact Or.inl (Or.inl h)
+      · subst h
+        rcases this with h | h
+        · exact Or.inl (Or.inr ⟨rfl, h⟩)
+        · exact Or.inr (Or.inr ⟨rfl, h⟩)
+      · exact Or.inr (Or.inl h)
+
+theorem lexLe_trans (a b c : List Nat) (h1 : lexLe a b = true) (h2 : lexLe b c = true) : lexLe a c = true := by
+  induction a generalizing b c with
+  | nil => simp [lexLe]
+  | cons x xs ih =>
+    cases b with
+    | nil => simp [lexLe] at h1
+    | cons y ys =>
+      cases c with
+      | nil => simp [lexLe] at h2
+      | cons z zs =>
+        simp only [lexLe, Bool.or_eq_true, Bool.and_eq_true, decide_eq_true_eq, beq_iff_eq] at h1 h2 ⊢
+        rcases h1 with h1 | ⟨h1, h1'⟩ <;> rcases h2 with h2 | ⟨h2, h2'⟩
+        · exact Or.inl (by omega)
+        · exact Or.inl (by omega)
+        · exact Or.inl (by omega)
+        · exact Or.inr ⟨by omega, ih ys zs h1' h2'⟩
+
+theorem lexLe_antisymm (a b : List Nat) (h1 : lexLe a b = true) (h2 : lexLe b a = true) : a = b := by
+  induction a generalizing b with
+  | nil =>
+    cases b with
+    | nil => rfl
+    | cons y ys => simp [lexLe] at h2
+  | cons x xs ih =>
+    cases b with
+    | nil => simp [lexLe] at h1
+    | cons y ys =>
+      simp only [lexLe, Bool.or_eq_true, Bool.and_eq_true, decide_eq_true_eq, beq_iff_eq] at h1 h2
+      rcases h1 with h1 | ⟨h1, h1'⟩ <;> rcases h2 with h2 | ⟨h2, h2'⟩
+      · omega
+      · omega
+      · omega
+      · rw [h1, ih ys h1' h2']
+
+theorem lexLe_of_prefix (a b : List Nat) (h : a <+: b) : lexLe a b = true := by
+  obtain ⟨t, rfl⟩ := h
+  induction a with
+  | nil => simp [lexLe]
+  | cons x xs ih => simp [lexLe, ih]
+
+theorem lexLe_between (x a b : List Nat) (hxb : x <+: b) (hxa : lexLe x a = true) (hab : lexLe a b = true) :
+    x <+: a := by
+  induction x generalizing a b with
+  | nil => exact List.nil_prefix
+  | cons c x' ih =>
+    obtain ⟨t, rfl⟩ := hxb
+    cases a with
+    | nil => simp [lexLe] at hxa
+    | cons d a' =>
+      simp only [List.cons_append, lexLe, Bool.or_eq_true, Bool.and_eq_true, decide_eq_true_eq, beq_iff_eq] at hxa hab
+      rcases hxa with h | ⟨h, h'⟩ <;> rcases hab with g | ⟨g, g'⟩
+      · omega
+      · omega
+      · omega
+      · subst h
+        have := ih a' (x' ++ t) ⟨t, rfl⟩ h' g'
+        obtain ⟨u, hu⟩ := this
+        exact ⟨u, by simp [hu]⟩
+
+/-- tree order on keys: the parent key (`dropLast`) of each key is a prefix of the key before it -/
+def PreK : List Nat → List (List Nat) → Prop
+  | _, [] => True
+  | prev, k :: r => k.dropLast <+: prev ∧ PreK k r
+
+theorem keys_preorder (pre : List (List Nat)) (a : List Nat) (rest : List (List Nat))
+    (hs : (pre ++ a :: rest).Pairwise (fun x y => lexLe x y = true))
+    (hcl : ∀ k ∈ pre ++ a :: rest, k ≠ [] ∧ (k.dropLast = [] ∨ k.dropLast ∈ pre ++ a :: rest)) :
+    PreK a rest := by
+  induction rest generalizing pre a with
+  | nil => trivial
+  | cons b r ih =>
+    refine ⟨?_, ?_⟩
+    · obtain ⟨hbne, hb⟩ := hcl b (by simp)
+      rcases hb with hb | hb
+      · rw [hb]; exact List.nil_prefix
+      · have hpb : lexLe b.dropLast b = true := lexLe_of_prefix _ _ (List.dropLast_prefix b)
+        have hlen : b.dropLast ≠ b := by
+          intro e
+          have := congrArg List.length e
+          simp at this
+          cases b with
+          | nil => exact hbne rfl
+          | cons _ _ => simp at this
+        have hab : lexLe a b = true := by
+          have := List.pairwise_append.mp hs
+          have h2 := this.2.1
+          exact (List.pairwise_cons.mp h2).1 b (by simp)
+        simp only [List.mem_append, List.mem_cons] at hb
+        have hpa : lexLe b.dropLast a = true := by
+          rcases hb with hb | hb | hb | hb
+          · exact (List.pairwise_append.mp hs).2.2 _ hb a (by simp)
+          · rw [hb]; exact lexLe_refl a
+          · exact absurd hb hlen
+          · -- the parent after its child: impossible
+            have h2 := (List.pairwise_append.mp hs).2.1
+            have h3 := (List.pairwise_cons.mp h2).2
+            have h4 := (List.pairwise_cons.mp h3).1 _ hb
+            exact absurd (lexLe_antisymm _ _ hpb h4) hlen
+        exact lexLe_between _ _ _ (List.dropLast_prefix b) hpa hab
+    · have e : pre ++ a :: b :: r = (pre ++ [a]) ++ b :: r := by simp
+      exact ih (pre ++ [a]) b (by rw [← e]; exact hs) (by rw [← e]; exact hcl)
+
+theorem prefixPaths_append (acc xs ys : List Str) :
+    prefixPaths acc (xs ++ ys) = prefixPaths acc xs ++ prefixPaths (acc ++ xs) ys := by
+  induction xs generalizing acc with
+  | nil => simp [prefixPaths]
+  | cons c cs ih => simp [prefixPaths, ih]
+
+theorem prefixPaths_length (acc cs : List Str) : (prefixPaths acc cs).length = cs.length := by
+  induction cs generalizing acc with
+  | nil => rfl
+  | cons c cs ih => simp [prefixPaths, ih]
+
+theorem sortKey_length (P : List (List Str)) (p : List Str) : (sortKey P p).length = p.length := by
+  simp [sortKey, prefixPaths_length]
+
+theorem sortKey_snoc (P : List (List Str)) (dl : List Str) (last : Str) :
+    sortKey P (dl ++ [last]) = sortKey P dl ++ [firstIndex P (dl ++ [last])] := by
+  simp [sortKey, prefixPaths_append, prefixPaths]
+
+theorem sortKey_take (P : List (List Str)) (p : List Str) (m : Nat) (hm : m ≤ p.length) :
+    (sortKey P p).take m = sortKey P (p.take m) := by
+  have h := prefixPaths_append [] (p.take m) (p.drop m)
+  rw [List.take_append_drop] at h
+  have hl : ((prefixPaths [] (p.take m)).map (firstIndex P)).length = m := by
+    simp [prefixPaths_length, Nat.min_eq_left hm]
+  unfold sortKey
+  rw [h, List.map_append, List.take_append_of_le_length (Nat.le_of_eq hl.symm),
+    List.take_of_length_le (Nat.le_of_eq hl)]
+
+theorem idxOpt_mem (xs : List (List Str)) (p : List Str) (h : p ∈ xs) : ∃ i, idxOpt xs p = some i := by
+  induction xs with
+  | nil => simp at h
+  | cons x t ih =>
+    by_cases hx : x = p
+    · exact ⟨0, by simp [idxOpt, hx]⟩
+    · have hp : p ∈ t := by
+        rcases List.mem_cons.mp h with h | h
+        · exact absurd h.symm hx
+        · exact h
+      obtain ⟨i, hi⟩ := ih hp
+      exact ⟨i + 1, by simp [idxOpt, hx, hi]⟩
+
+theorem idxOpt_inj (xs : List (List Str)) (p q : List Str) (i : Nat) (hp : idxOpt xs p = some i)
+    (hq : idxOpt xs q = some i) : p = q := by
+  induction xs generalizing i with
+  | nil => simp [idxOpt] at hp
+  | cons x t ih =>
+    simp only [idxOpt] at hp hq
+    by_cases h1 : x = p
+    · subst h1
+      simp only [beq_self_eq_true, ↓reduceIte, Option.some.injEq] at hp
+      by_cases h2 : x = q
+      · exact h2
+      · have : (x == q) = false := by simpa using h2
+        simp only [this, Bool.false_eq_true, ↓reduceIte, Option.map_eq_some_iff] at hq
+        obtain ⟨j, _, hj⟩ := hq
+        omega
+    · have e1 : (x == p) = false := by simpa using h1
+      simp only [e1, Bool.false_eq_true, ↓reduceIte, Option.map_eq_some_iff] at hp
+      obtain ⟨j, hj, hji⟩ := hp
+      by_cases h2 : x = q
+      · subst h2
+        simp only [beq_self_eq_true, ↓reduceIte, Option.some.injEq] at hq
+        omega
+      · have e2 : (x == q) = false := by simpa using h2
+        simp only [e2, Bool.false_eq_true, ↓reduceIte, Option.map_eq_some_iff] at hq
+        obtain ⟨k, hk, hki⟩ := hq
+        exact ih j hj (by rw [hk]; congr 1; omega)
+
+theorem firstIndex_inj (P : List (List Str)) (p q : List Str) (hp : p ∈ P) (hq : q ∈ P)
+    (h : firstIndex P p = firstIndex P q) : p = q := by
+  obtain ⟨i, hi⟩ := idxOpt_mem P p hp
+  obtain ⟨j, hj⟩ := idxOpt_mem P q hq
+  unfold firstIndex at h
+  rw [hi, hj] at h
+  simp at h
+  subst h
+  exact idxOpt_inj P p q i hi hj
+
+theorem snoc_of_ne_nil (p : List Str) (h : p ≠ []) : ∃ dl last, p = dl ++ [last] :=
+  ⟨p.dropLast, p.getLast h, (List.dropLast_concat_getLast h).symm⟩
+
+theorem sortKey_inj (P : List (List Str)) (p q : List Str) (hp : p ∈ P) (hq : q ∈ P) (hpne : p ≠ [])
+    (h : sortKey P p = sortKey P q) : p = q := by
+  have hlen : p.length = q.length := by rw [← sortKey_length P p, ← sortKey_length P q, h]
+  have hqne : q ≠ [] := by intro e; rw [e] at hlen; simp at hlen; exact hpne hlen
+  obtain ⟨dl, last, rfl⟩ := snoc_of_ne_nil p hpne
+  obtain ⟨dl', last', rfl⟩ := snoc_of_ne_nil q hqne
+  rw [sortKey_snoc, sortKey_snoc] at h
+  have := congrArg List.getLast? h
+  simp at this
+  exact firstIndex_inj P _ _ hp hq this
+
+theorem take_mem_of_closed (P : List (List Str)) (hcl : ∀ q ∈ P, q.dropLast = [] ∨ q.dropLast ∈ P) :
+    ∀ n (q : List Str), q.length = n → q ∈ P → ∀ m, 1 ≤ m → m ≤ n → q.take m ∈ P := by
+  intro n
+  induction n with
+  | zero => intro q _ _ m h1 h2; omega
+  | succ n ih =>
+    intro q hl hq m h1 h2
+    by_cases hm : m = n + 1
+    · rw [hm, ← hl, List.take_length]; exact hq
+    · have hmn : m ≤ n := by omega
+      have hdl : q.dropLast.length = n := by simp [hl]
+      rcases hcl q hq with hd | hd
+      · rw [hd] at hdl; simp at hdl; omega
+      · have := ih q.dropLast hdl hd m h1 hmn
+        rw [List.dropLast_eq_take, List.take_take] at this
+        have hmin : min m (q.length - 1) = m := by rw [hl]; omega
+        rw [hmin] at this
+        exact this
+
+theorem preorder_of_preK (P : List (List Str)) (hcl : ∀ q ∈ P, q.dropLast = [] ∨ q.dropLast ∈ P) :
+    ∀ (L : List Entry) (prev : List Str), (∀ e ∈ L, pathOf e ∈ P) → (prev = [] ∨ prev ∈ P) →
+      PreK (sortKey P prev) (L.map fun e => sortKey P (pathOf e)) → Preorder prev L = true := by
+  intro L
+  induction L with
+  | nil => intro prev _ _ _; rfl
+  | cons e r ih =>
+    intro prev hmem hprev hk
+    simp only [List.map_cons, PreK] at hk
+    obtain ⟨hk1, hk2⟩ := hk
+    have he := hmem e List.mem_cons_self
+    have hene : pathOf e ≠ [] := splitOn_ne_nil '/' e.name
+    obtain ⟨dl, last, hdl⟩ := snoc_of_ne_nil (pathOf e) hene
+    have hrest := ih (pathOf e) (fun x hx => hmem x (List.mem_cons_of_mem _ hx)) (Or.inr he) hk2
+    have hcs : splitOn '/' e.name = dl ++ [last] := hdl
+    rw [hdl, sortKey_snoc, List.dropLast_concat] at hk1
+    have hlen : dl.length ≤ prev.length := by
+      have := List.IsPrefix.length_le hk1
+      rwa [sortKey_length, sortKey_length] at this
+    have hpre : dl = prev.take dl.length := by
+      by_cases hd : dl = []
+      · simp [hd]
+      · have hdlP : dl ∈ P := by
+          rcases hcl (pathOf e) he with h | h
+          · rw [hdl, List.dropLast_concat] at h; exact absurd h hd
+          · rwa [hdl, List.dropLast_concat] at h
+        have hpos : 1 ≤ dl.length := by
+          cases dl with
+          | nil => exact absurd rfl hd
+          | cons _ _ => simp
+        have hprevP : prev ∈ P := by
+          rcases hprev with h | h
+          · rw [h] at hlen; simp at hlen; exact absurd hlen hd
+          · exact h
+        have htake := take_mem_of_closed P hcl prev.length prev rfl hprevP dl.length hpos hlen
+        have hkeq : sortKey P dl = sortKey P (prev.take dl.length) := by
+          rw [← sortKey_take P prev dl.length hlen]
+          have := List.prefix_iff_eq_take.mp hk1
+          rwa [sortKey_length] at this
+        exact sortKey_inj P dl _ hdlP htake hd hkeq
+    simp only [Preorder, hcs, List.length_append, List.length_cons, List.length_nil, Nat.zero_add,
+      Nat.add_sub_cancel, List.dropLast_concat, Bool.and_eq_true, decide_eq_true_eq, beq_iff_eq]
+    refine ⟨⟨hlen, hpre⟩, ?_⟩
+    rw [← hcs]
+    exact hrest
+
+theorem groupClosed_spec {es : List Entry} (h : groupClosed es = true) :
+    ∀ q ∈ es.map pathOf, q.dropLast = [] ∨ q.dropLast ∈ es.map pathOf := by
+  intro q hq
+  obtain ⟨e, he, rfl⟩ := List.mem_map.mp hq
+  unfold groupClosed at h
+  have := List.all_eq_true.mp h e he
+  simp only [Bool.or_eq_true, List.isEmpty_iff, List.contains_iff_mem] at this
+  exact this
+
+theorem treeOrder_perm (es : List Entry) : (treeOrder es).Perm es := List.mergeSort_perm _ _
+
+theorem treeOrder_preorder (es : List Entry) (hcl : groupClosed es = true) :
+    Preorder [] (treeOrder es) = true := by
+  have hclP := groupClosed_spec hcl
+  have hperm := treeOrder_perm es
+  have hsorted : (treeOrder es).Pairwise
+      (fun a b => lexLe (sortKey (es.map pathOf) (pathOf a)) (sortKey (es.map pathOf) (pathOf b)) = true) :=
+    List.pairwise_mergeSort
+      (le := fun a b => lexLe (sortKey (es.map pathOf) (pathOf a)) (sortKey (es.map pathOf) (pathOf b)))
+      (fun a b c h1 h2 => lexLe_trans _ _ _ h1 h2) (fun a b => lexLe_total _ _) es
+  have hmemL : ∀ e ∈ treeOrder es, pathOf e ∈ es.map pathOf := fun e he =>
+    List.mem_map_of_mem (hperm.mem_iff.mp he)
+  have hkeys : ((treeOrder es).map fun e => sortKey (es.map pathOf) (pathOf e)).Pairwise
+      (fun x y => lexLe x y = true) := List.pairwise_map.mpr hsorted
+  have hkey_drop : ∀ e : Entry, (sortKey (es.map pathOf) (pathOf e)).dropLast =
+      sortKey (es.map pathOf) (pathOf e).dropLast := by
+    intro e
+    obtain ⟨dl, last, hdl⟩ := snoc_of_ne_nil (pathOf e) (splitOn_ne_nil '/' e.name)
+    rw [hdl, sortKey_snoc, List.dropLast_concat, List.dropLast_concat]
+  have hclK : ∀ k ∈ (treeOrder es).map fun e => sortKey (es.map pathOf) (pathOf e),
+      k ≠ [] ∧ (k.dropLast = [] ∨ k.dropLast ∈ (treeOrder es).map fun e => sortKey (es.map pathOf) (pathOf e)) := by
+    intro k hk
+    obtain ⟨e, he, rfl⟩ := List.mem_map.mp hk
+    refine ⟨?_, ?_⟩
+    · intro h0
+      have := congrArg List.length h0
+      rw [sortKey_length] at this
+      exact splitOn_ne_nil '/' e.name (List.length_eq_zero_iff.mp this)
+    · rw [hkey_drop e]
+      rcases hclP _ (hmemL e he) with h | h
+      · left; rw [h]; rfl
+      · right
+        obtain ⟨e', he', hpe'⟩ := List.mem_map.mp h
+        exact List.mem_map.mpr ⟨e', hperm.mem_iff.mpr he', by rw [hpe']⟩
+  cases hL : treeOrder es with
+  | nil => rfl
+  | cons a rest =>
+    rw [hL] at hkeys hclK hmemL
+    simp only [List.map_cons] at hkeys hclK
+    have hk := keys_preorder [] (sortKey (es.map pathOf) (pathOf a))
+      (rest.map fun e => sortKey (es.map pathOf) (pathOf e)) (by rw [List.nil_append]; exact hkeys)
+      (by rw [List.nil_append]; exact hclK)
+    have hfirst : (sortKey (es.map pathOf) (pathOf a)).dropLast = [] := by
+      obtain ⟨_, hd⟩ := hclK (sortKey (es.map pathOf) (pathOf a)) List.mem_cons_self
+      rcases hd with hd | hd
+      · exact hd
+      · exfalso
+        have hpre : lexLe (sortKey (es.map pathOf) (pathOf a)).dropLast (sortKey (es.map pathOf) (pathOf a)) = true :=
+          lexLe_of_prefix _ _ (List.dropLast_prefix _)
+        have hne : (sortKey (es.map pathOf) (pathOf a)).dropLast ≠ sortKey (es.map pathOf) (pathOf a) := by
+          intro e0
+          have := congrArg List.length e0
+          rw [List.length_dropLast, sortKey_length] at this
+          have : (pathOf a).length ≠ 0 := fun h0 => splitOn_ne_nil '/' a.name (List.length_eq_zero_iff.mp h0)
+          omega
+        rcases List.mem_cons.mp hd with hd | hd
+        · exact hne hd
+        · have := (List.pairwise_cons.mp hkeys).1 _ hd
+          exact hne (lexLe_antisymm _ _ hpre this)
+    apply preorder_of_preK (es.map pathOf) hclP (a :: rest) [] hmemL (Or.inl rfl)
+    show PreK (sortKey (es.map pathOf) []) _
+    simp only [List.map_cons, PreK]
+    exact ⟨by rw [hfirst]; exact List.nil_prefix, hk⟩
+
+theorem lexLe_snoc_cancel (x : List Nat) (i j : Nat) (h : lexLe (x ++ [i]) (x ++ [j]) = true) : i ≤ j := by
+  induction x with
+  | nil =>
+    simp only [List.nil_append, lexLe, Bool.or_eq_true, Bool.and_eq_true, decide_eq_true_eq, beq_iff_eq] at h
+    omega
+  | cons c t ih =>
+    simp only [List.cons_append, lexLe, Bool.or_eq_true, Bool.and_eq_true, decide_eq_true_eq, beq_iff_eq] at h
+    rcases h with h | ⟨_, h⟩
+    · omega
+    · exact ih h
+
+theorem preorder_root_any (prev : List Str) (G : List Entry) (h : Preorder [] G = true) : Preorder prev G = true := by
+  cases G with
+  | nil => rfl
+  | cons e r =>
+    simp only [Preorder, Bool.and_eq_true, decide_eq_true_eq, beq_iff_eq, List.length_nil, List.take_nil] at h ⊢
+    obtain ⟨⟨h1, h2⟩, h3⟩ := h
+    have hz : (splitOn '/' e.name).length - 1 = 0 := by omega
+    refine ⟨⟨by omega, ?_⟩, h3⟩
+    rw [hz, List.take_zero]; exact h2
+
+theorem preorder_append (prev : List Str) (G1 G2 : List Entry) (h1 : Preorder prev G1 = true)
+    (h2 : Preorder [] G2 = true) : Preorder prev (G1 ++ G2) = true := by
+  induction G1 generalizing prev with
+  | nil => exact preorder_root_any prev G2 h2
+  | cons e r ih =>
+    simp only [List.cons_append, Preorder, Bool.and_eq_true] at h1 ⊢
+    exact ⟨h1.1, ih _ h1.2⟩
+
 end HedVerif.SchemaIO
 
 namespace HedVerif.C05
@@ -2650,5 +3207,174 @@ theorem wiki_order_counterexample :
       some [⟨['A'], [], none⟩, ⟨['A', '/', 'B'], [], none⟩, ⟨['A', '/', 'C'], [], none⟩,
         ⟨['A', '/', 'C', '/', 'R'], [], none⟩] :=
   ⟨by decide, by decide⟩
+
+/-! ### full-strength forms of the `_partial` theorems -/
+
+/-- **Wiki lines, full strength.**  For *every* level, name, attributes and description satisfying `lineWF` — no
+assumption on blanks — the written line is accepted and `_create_entry` returns the name, the attributes and the
+description **stripped**.  So the line round trip is the identity exactly on trimmed descriptions
+(`line_roundtrip_partial`), which is all a loaded schema can contain (`loaded_descriptions_trimmed`).
+What `lineWF` still excludes, and why:
+* `{ } [ ]` in names, values, descriptions — the compliance character check rejects them (malformed stream);
+* `<` and the quote character in names and `<`, `,`, `=`, newline in attribute values — outside the name / value classes;
+* a literal `<nowiki>` / `</nowiki>` in a description — registered finding, `nowiki_counterexample`;
+* the text `extend here` anywhere on the line — registered finding, `extend_here_counterexample`;
+* the text `&#8203;` anywhere on the line — the reader deletes it before locating the name, which shifts the
+  bracket search only if it occurs before the first `{`/`[`; the predicate excludes it everywhere (over-approximation). -/
+theorem line_roundtrip (l : Nat) (short : Str) (as : Attrs) (desc : Option Str)
+    (h : lineWF l short as desc = true) :
+    cleanLine (tagLine l short (extras (formatAttr as) desc)) =
+        .ok (some (rowBody l short (extras (formatAttr as) desc))) ∧
+      readEntry (rowBody l short (extras (formatAttr as) desc)) = .ok (short, as, desc.map strip) ∧
+      quote3.isPrefixOf (rowBody l short (extras (formatAttr as) desc)) = (l == 0) ∧
+      (0 < l → tagLevel (rowBody l short (extras (formatAttr as) desc)) = some l) :=
+  line_roundtrip_full l short as desc h
+
+/-- **Tag sections, full strength.**  For every preorder listing of `entryWF` entries — descriptions with or
+without edge blanks — reading what `_output_tags` writes gives every entry back with its description stripped
+(`stripDesc`); on trimmed descriptions `stripDesc` is the identity (`stripDesc_trimmed`).  `Preorder` cannot be
+dropped (`wiki_order_counterexample`); it holds for every loaded schema (`treeOrder_is_preorder` for the groups the
+loader keeps in tree order, checked on every schema by the harness). -/
+theorem wiki_tags_roundtrip (ts : List Entry) (hwf : ∀ e ∈ ts, entryWF e = true) (hp : Preorder [] ts = true) :
+    ofWiki (toWiki ts) = .ok (ts.map stripDesc) :=
+  ofWikiFrom_toWiki_full ts [] hwf hp
+
+theorem stripDesc_trimmed (e : Entry) (h : descTrimmed e.desc = true) : stripDesc e = e :=
+  stripDesc_of_trimmed e h
+
+/-- **Struct-sheet escape, full strength.**  A prologue / epilogue text survives the TSV newline escaping iff-side
+that matters: whenever it does not contain a backslash directly followed by `n`; `escape_counterexample` shows the
+excluded texts really change (the two characters come back as a newline). -/
+theorem escape_roundtrip (s : Str) (h : hasSub ['\\', 'n'] s = false) : unescapeNl (escapeNl s) = s :=
+  escape_unescape s h
+
+set_option maxRecDepth 8192 in
+/-- **Finding C05-description-extend-here on the model**: a description containing `extend here` satisfies every
+other clause of `lineWF`, yet the reader finds no name on the written line (a fatal load error). -/
+theorem extend_here_counterexample :
+    (nameWF ['A'] && attrsWF [] && descWF (some ['e', 'x', 't', 'e', 'n', 'd', ' ', 'h', 'e', 'r', 'e'])) = true ∧
+    lineWF 1 ['A'] [] (some ['e', 'x', 't', 'e', 'n', 'd', ' ', 'h', 'e', 'r', 'e']) = false ∧
+    ((cleanLine (tagLine 1 ['A'] (extras (formatAttr [])
+        (some ['e', 'x', 't', 'e', 'n', 'd', ' ', 'h', 'e', 'r', 'e'])))).toOption.bind fun r =>
+      r.map fun row => (getTagName row, (readEntry row).toOption.map (·.1))) =
+      some (some (([], 0) : Str × Nat), some []) :=
+  ⟨by decide, by decide, by decide⟩
+
+set_option maxRecDepth 8192 in
+/-- **Finding C05-description-nowiki-tag on the model**: a literal nowiki tag inside a description is removed by
+the reader's per-line cleaning, so the description comes back shorter. -/
+theorem nowiki_counterexample :
+    descWF (some ['a', '<', 'n', 'o', 'w', 'i', 'k', 'i', '>', 'b']) = false ∧
+    (nameWF ['A'] && attrsWF []) = true ∧
+    ((cleanLine (tagLine 1 ['A'] (extras (formatAttr []) (some ['a', '<', 'n', 'o', 'w', 'i', 'k', 'i', '>', 'b'])))).toOption.bind
+      fun r => r.bind fun row => (readEntry row).toOption) =
+      some ((['A'], [], some ['a', 'b']) : Str × Attrs × Option Str) :=
+  ⟨by decide, by decide, by decide⟩
+
+/-! ### the three formats agree, merged and unmerged -/
+
+/-- **Format agreement for one save.**  Let `out` be what the shared traversal writes for a schema (any header
+that is not refused, `save_merged` either way) and let `rel` name those entries as the saved file shows them
+(`RelOf`: for a merged save the written entries themselves, for an unmerged save the library entries with rooted
+tags as roots).  If `rel` is in the input language (`entryWF`, trimmed descriptions, `xmlWF`, preorder) then the
+MediaWiki lines and the XML element forest written for `out` both decode to exactly `rel`; and whenever the file
+shows full names (`out` and `rel` have the same entries: every merged save, and unmerged saves without rooted
+tags) and `rel` is in the TSV input language, the TSV rows decode to `rel` as well, up to `hedLast`
+(`hedLast_same`).  A rooted tag in an unmerged TSV file can only be read with the partner schema (not modelled). -/
+theorem formats_agree (library withStandard : Str) (merged : Bool) (all rel : List Entry) (out : List (Nat × Entry))
+    (_hsave : saveTags library withStandard merged all = .ok out) (hrel : RelOf out rel)
+    (hwf : ∀ e ∈ rel, entryWF e = true ∧ descTrimmed e.desc = true ∧ xmlWF e = true)
+    (hp : Preorder [] rel = true) :
+    ofWiki (toWikiLeveled out) = .ok rel ∧
+    (∃ F, toXmlTree out = some F ∧ ofXmlTree F = rel) ∧
+    (out.map (·.2) = rel → (∀ e ∈ rel, tsvWF e = true) → TsvResolvable [(hedTag, [])] rel = true →
+      ofTsvRows (toTsvRows out) = .ok (rel.map hedLast)) := by
+  refine ⟨?_, ?_, ?_⟩
+  · rw [toWikiLeveled_congr out rel hrel]
+    exact wiki_tags_roundtrip_partial rel (fun e he => ⟨(hwf e he).1, (hwf e he).2.1⟩) hp
+  · obtain ⟨F, h1, h2⟩ := xml_tags_roundtrip rel (fun e he => (hwf e he).2.2) hp
+    exact ⟨F, by rw [toXmlTree, toXmlFrom_congr out rel [] hrel]; exact h1, h2⟩
+  · intro hsame htsv hres
+    have := tsv_tags_roundtrip out
+      (by intro p hp'; exact htsv p.2 (by rw [← hsame]; exact List.mem_map_of_mem hp'))
+      (by rw [hsame]; exact hres)
+    rw [this, ← hsame, List.map_map]
+    rfl
+
+/-- **Merged saves (and schemas without partner): XML ≡ MediaWiki ≡ TSV.**  For every header that is not refused
+and every tag list whose written form is in the input language of the three formats, the merged save's three
+documents decode to the same entries (TSV up to `hedLast`). -/
+theorem formats_agree_merged (library withStandard : Str) (hl : ',' ∉ library) (all : List Entry) :
+    ∃ f out, processFlags library withStandard true = .ok f ∧
+      saveTags library withStandard true all = .ok out ∧
+      ((∀ e ∈ all, entryWF (written f e) = true ∧ descTrimmed (written f e).desc = true ∧
+          xmlWF (written f e) = true ∧ tsvWF (written f e) = true) →
+        Preorder [] (all.map (written f)) = true → TsvResolvable [(hedTag, [])] (all.map (written f)) = true →
+        ofWiki (toWikiLeveled out) = .ok (all.map (written f)) ∧
+        (∃ F, toXmlTree out = some F ∧ ofXmlTree F = all.map (written f)) ∧
+        ofTsvRows (toTsvRows out) = .ok ((all.map (written f)).map hedLast)) := by
+  obtain ⟨f, hf, hout, _⟩ := merged_keeps_everything library withStandard hl all
+  have hsave : saveTags library withStandard true all = .ok (outputTags f all) := by
+    simp [saveTags, hf, Except.map]
+  refine ⟨f, outputTags f all, hf, hsave, ?_⟩
+  intro hwf hp hres
+  have hrel : RelOf (outputTags f all) (all.map (written f)) := by
+    unfold RelOf
+    rw [hout, List.map_map, List.map_map]
+    apply List.map_congr_left
+    intro e _
+    simp [written]
+  have hsame : (outputTags f all).map (·.2) = all.map (written f) := by
+    rw [hout, List.map_map]; rfl
+  have hwf' : ∀ e ∈ all.map (written f), entryWF e = true ∧ descTrimmed e.desc = true ∧ xmlWF e = true := by
+    intro e he
+    obtain ⟨x, hx, rfl⟩ := List.mem_map.mp he
+    exact ⟨(hwf x hx).1, (hwf x hx).2.1, (hwf x hx).2.2.1⟩
+  obtain ⟨a, b, c⟩ := formats_agree library withStandard true all _ _ hsave hrel hwf' hp
+  refine ⟨a, b, c hsame ?_ hres⟩
+  intro e he
+  obtain ⟨x, hx, rfl⟩ := List.mem_map.mp he
+  exact (hwf x hx).2.2.2
+
+/-! ### tree order of the tag section after loading (fix ba6aaf2) -/
+
+/-- **The loader's tree order gives the `Preorder` hypothesis.**  For every top-level group in which each tag's
+parent is present (`groupClosed`), the stable sort that `_finalize_section` applies to groups it does not re-sort
+alphabetically returns a permutation of the group that is a preorder listing (every tag after its parent and
+inside its parent's block: exactly the `Preorder` hypothesis of `wiki_tags_roundtrip`), and it keeps the sibling
+order: of two tags with the same parent the one that came first in the input comes first in the output. -/
+theorem treeOrder_is_preorder (es : List Entry) (hcl : groupClosed es = true) :
+    Preorder [] (treeOrder es) = true ∧ (treeOrder es).Perm es ∧
+    (∀ a b, [a, b].Sublist (treeOrder es) → (pathOf a).dropLast = (pathOf b).dropLast →
+      firstIndex (es.map pathOf) (pathOf a) ≤ firstIndex (es.map pathOf) (pathOf b)) := by
+  refine ⟨treeOrder_preorder es hcl, treeOrder_perm es, ?_⟩
+  intro a b hab hpar
+  have hsorted : (treeOrder es).Pairwise
+      (fun a b => lexLe (sortKey (es.map pathOf) (pathOf a)) (sortKey (es.map pathOf) (pathOf b)) = true) :=
+    List.pairwise_mergeSort
+      (le := fun a b => lexLe (sortKey (es.map pathOf) (pathOf a)) (sortKey (es.map pathOf) (pathOf b)))
+      (fun a b c h1 h2 => lexLe_trans _ _ _ h1 h2) (fun a b => lexLe_total _ _) es
+  have h := List.pairwise_iff_forall_sublist.mp hsorted hab
+  obtain ⟨da, la, ha⟩ := snoc_of_ne_nil (pathOf a) (splitOn_ne_nil '/' a.name)
+  obtain ⟨db, lb, hb⟩ := snoc_of_ne_nil (pathOf b) (splitOn_ne_nil '/' b.name)
+  rw [ha, hb, List.dropLast_concat, List.dropLast_concat] at hpar
+  subst hpar
+  rw [ha, hb, sortKey_snoc, sortKey_snoc] at h
+  rw [ha, hb]
+  exact lexLe_snoc_cancel _ _ _ h
+
+/-- groups that are each in tree order stay so when concatenated (`all_entries` is the concatenation of the
+top-level groups): with `treeOrder_is_preorder` this discharges `Preorder` for the whole tag section of a loaded
+schema as far as its groups are tree-ordered by the loader (alphabetically re-sorted groups are checked per schema
+by the harness, not modelled). -/
+theorem preorder_of_groups (G1 G2 : List Entry) (h1 : Preorder [] G1 = true) (h2 : Preorder [] G2 = true) :
+    Preorder [] (G1 ++ G2) = true :=
+  preorder_append [] G1 G2 h1 h2
+
+example :
+    let es : List Entry :=
+      [⟨['A'], [], none⟩, ⟨['A', '/', 'B'], [], none⟩, ⟨['A', '/', 'C'], [], none⟩, ⟨['A', '/', 'B', '/', 'R'], [], none⟩]
+    groupClosed es = true ∧ Preorder [] es = false := by
+  decide
 
 end HedVerif.C05
